@@ -168,6 +168,8 @@ def crash_stage(c):
     # (c05_same_worker_resumed / c05_same_worker_wedge_counterexample)
     cfg['resumesAbandonedOp'], probe = svccheck.probe_resume('sqlmem')
     c.flags['resumesAbandonedOp'] = cfg['resumesAbandonedOp']
+    cfg['esResumesActive'], _ = svccheck.probe_es_resume('sqlmem')
+    c.flags['esResumesActive'] = cfg['esResumesActive']
     n_prefix = len(PREFIXES) if c.tier == 'thorough' else 2
     for pi in range(n_prefix):
       prefix = PREFIXES[pi]
